@@ -13,3 +13,82 @@ Exec.attr_handlers[("Pt", "fields")] = lambda ex, p, node, st: fields_of(p.t)
 Exec.attr_handlers[("Pt", "time")] = lambda ex, p, node, st: Val(Dt, time_of(p.t))
 Exec.truthy_handlers["Dt"] = lambda ex, v: z3.BoolVal(True)
 Exec.method_handlers[("Dt", "timestamp")] = lambda ex, v, node, st, rn: Val(TReal, dt_ts(v.t))
+
+# ---- query objects (abstract; DESIGN 3.2)
+import ast as _ast
+from pyvc.core import Unsupported
+
+
+def _q_isinstance(ex, v, names, node, st):
+    cs = []
+    if "SimpleQuery" in names:
+        cs.append(q_kind(v.t) == 0)
+    if "CompoundQuery" in names:
+        cs.append(q_kind(v.t) == 1)
+    if not cs:
+        return z3.BoolVal(False)
+    return z3.Or(*cs)
+
+
+Exec.isinstance_handlers["Q"] = _q_isinstance
+Exec.attr_handlers[("Q", "operator")] = lambda ex, v, node, st: Val(Op, q_op(v.t))
+Exec.attr_handlers[("Q", "_operator")] = lambda ex, v, node, st: Val(Op, q_op(v.t))
+Exec.attr_handlers[("Q", "query1")] = lambda ex, v, node, st: Val(Q, q_q1(v.t))
+Exec.attr_handlers[("Q", "point_attr")] = lambda ex, v, node, st: Val(TStr, q_attr(v.t))
+Exec.attr_handlers[("Q", "_point_attr")] = lambda ex, v, node, st: Val(TStr, q_attr(v.t))
+Exec.attr_handlers[("Q", "_rhs")] = lambda ex, v, node, st: Val(Dt, q_rhs_dt(v.t))
+Exec.attr_handlers[("Q", "_hash")] = lambda ex, v, node, st: Val(TU("QHash"), v.t)
+Exec.truthy_handlers["QHash"] = lambda ex, v: q_hash_truthy(v.t)
+Exec.truthy_handlers["Q"] = lambda ex, v: z3.BoolVal(True)  # query classes define neither __bool__ nor __len__
+QOPT = TOpt(Q)
+Exec.attr_handlers[("Q", "query2")] = lambda ex, v, node, st: Val(QOPT, z3.If(q_has2(v.t), o_some(QOPT, q_q2(v.t)), o_none(QOPT)))
+for _n, _c in OPS.items():
+    Exec.global_values["operator." + _n] = (lambda c: (lambda ex, st: Val(Op, c)))(_c)
+
+
+def inject(ex, v, node):
+    k = v.ty.key
+    if k == "UV":
+        return v.t
+    if v.ty == TStr:
+        return uv_str(v.t)
+    if v.ty == TagV:
+        return uv_tagv(v.t)
+    if v.ty == FldV:
+        return uv_fldv(v.t)
+    if v.ty == TReal:
+        return uv_fldv(o_some(FldV, v.t))
+    if v.ty == Dt:
+        return uv_dt(v.t)
+    raise Unsupported("value of type %s passed to a query function" % v.ty, node)
+
+
+def _q_test(ex, recv, node, st, rn):
+    (a,) = [ex.eval(x, st) for x in node.args]
+    return Val(TBool, q_test(recv.t, inject(ex, a, node)))
+
+
+def _q_path(ex, recv, node, st, rn):
+    (an,) = node.args
+    if isinstance(an, _ast.Dict) and len(an.keys) == 1:
+        k = ex.coerce(ex.eval(an.keys[0], st), TStr, node)
+        v = inject(ex, ex.eval(an.values[0], st), node)
+        ex.hazard("UserError", z3.Not(q_path1_raises(recv.t, k.t, v)), node, "path resolver raises")
+        return Val(UV, q_path1(recv.t, k.t, v))
+    v = inject(ex, ex.eval(an, st), node)
+    ex.hazard("UserError", z3.Not(q_path0_raises(recv.t, v)), node, "path resolver raises")
+    return Val(UV, q_path0(recv.t, v))
+
+
+Exec.method_handlers[("Q", "_test")] = _q_test
+Exec.method_handlers[("Q", "_path_resolver")] = _q_path
+
+# ---- datetime conversions used by the index
+def _fromtimestamp(ex, node, st):
+    (a,) = [ex.eval(x, st) for x in node.args]
+    return Val(Dt, dt_from_ts(ex.coerce(a, TReal, node).t))
+
+
+Exec.global_calls["datetime.datetime.fromtimestamp"] = _fromtimestamp
+Exec.global_values["datetime.timezone.utc"] = lambda ex, st: Val(TU("Tz"), z3.Const("tz_utc", sort_of(TU("Tz"))))
+Exec.method_handlers[("Dt", "astimezone")] = lambda ex, v, node, st, rn: Val(Dt, dt_utc(v.t))
